@@ -25,6 +25,7 @@ META = {
 }
 META["technique"] += '; newline-mode audit of every output buffer construction (shared with C06.R2)'
 META["technique"] += '; decoded-use rule for tokens admitted as quoted strings by a `.type_` comparison; integer-exactness rule on the math filters'
+META["technique"] += '; sibling comparator decrement / increment; provenance of values handed to to_liquid_string in render methods'
 META["level_text"] += ' Also decided (R5): no output buffer is built with a newline mode that rewrites CR/CRLF.'
 
 DECODERS = {"parse_string_or_identifier", "parse_string_or_path", "parse_primitive", "parse_boolean_primitive"}
@@ -373,6 +374,36 @@ def run(prog: Program, res: Result) -> None:  # noqa: PLR0912, PLR0915
     from checks.shared import check_integer_exactness
 
     check_integer_exactness(prog, res, "C20.R9")
+    res.rule("C20.R10", "`decrement` reads its name as `increment` does: DecrementTag / DecrementNode equal IncrementTag / IncrementNode method by method up to the tag's name - a quoted name is decoded by both (`increment \"a\\u0062\"` and `decrement 'ab'` share one counter) (= C12.R20)")
+    from checks.shared import check_sibling_tags
+
+    check_sibling_tags(prog, res, "C20.R10", "liquid2/builtin/tags/decrement_tag.py", "liquid2/builtin/tags/increment_tag.py", (("DecrementNode", "IncrementNode"), ("DecrementTag", "IncrementTag")), (("Decrement", "Increment"), ("decrement", "increment")))
+    # ------------------------------------------------------------------ R11 what a tag prints is what its expression evaluates to
+    res.rule("C20.R11", "a literal printed by a tag is the literal as evaluated: in the render methods of every Node the value handed to to_liquid_string() comes from an `evaluate[_async](context)` call (directly or through a local bound to nothing else) - text precomputed from `item.value` at parse time has lost what evaluation adds (a string literal is Markup under auto-escape, so it is written as written; a plain str stand-in is escaped: `{% cycle '<b>x</b>' %}` prints `&lt;b&gt;…`)")
+    n11 = 0
+    nb11 = prog.cls("liquid2.ast.Node")
+    for fi11 in sorted(prog.all_functions(), key=lambda f: (f.file, f.node.lineno)):
+        if fi11.cls is None or not prog.is_subclass(fi11.cls, nb11) or fi11.name not in ("render_to_output", "render_to_output_async"):
+            continue
+        for c11 in ast.walk(fi11.node):
+            if not (isinstance(c11, ast.Call) and (dotted(c11.func) or "").split(".")[-1] == "to_liquid_string" and c11.args):
+                continue
+            n11 += 1
+            arg = c11.args[0]
+            srcs = [arg]
+            if isinstance(arg, ast.Name):
+                srcs = [a.value for a in ast.walk(fi11.node) if isinstance(a, (ast.Assign, ast.AnnAssign)) and a.value is not None and any(isinstance(t, ast.Name) and t.id == arg.id for t in (a.targets if isinstance(a, ast.Assign) else [a.target]))] or [arg]
+            def _is_eval(e: ast.AST) -> bool:
+                e = e.value if isinstance(e, ast.Await) else e
+                return isinstance(e, ast.Call) and isinstance(e.func, ast.Attribute) and e.func.attr in ("evaluate", "evaluate_async", "increment", "decrement", "getvalue")
+            bad11 = [s_ for s_ in srcs if not _is_eval(s_)]
+            site = f"{fi11.file}:{c11.lineno} {fi11.qualname}"
+            what = f"{fi11.qualname}: `{norm(c11, 50)}` prints an evaluated value"
+            if bad11:
+                res.fail("C20.R11", file=fi11.file, line=c11.lineno, qualname=fi11.qualname, construct=f"{fi11.qualname}: prints `{norm(bad11[0], 30)}`, not an evaluated expression", message=f"{fi11.qualname} hands `{norm(bad11[0], 50)}` to to_liquid_string(): a value that did not come from evaluate() - text precomputed from a literal's `.value` is a plain str, which auto-escape rewrites, where the evaluated literal is Markup and is written as written", what=what)
+            else:
+                res.ok("C20.R11", site, what, "argument is an evaluate() result")
+    res.floor("C20.R11", "to_liquid_string calls in render methods", n11, 6)
     res.rule("C20.R7", "_parse_hex_digits accepts exactly the 22 hexadecimal digits and gives each its value: the chain of constant comparisons on the code unit, read as a table over all 128 ASCII code units, equals int(chr(c), 16) on 0-9 A-F a-f and rejects every other unit; the accumulated value is shifted by 4 bits per digit")
     ph = prog.fn_opt("liquid2/unescape.py", "_parse_hex_digits")
     if ph is None:
